@@ -37,6 +37,65 @@ func checkC19(p *Program, r *Result) {
 
 	// ---- C19.a
 	inCycle := recursiveFuncs(p, scope)
+	// a cycle through several functions is guarded when it passes through one guarded call: collect the call edges of
+	// the cycles, take the guarded ones out, and see which of the others still lie on a cycle
+	type cedge struct {
+		from, to *ssa.Function
+		ci       ssa.CallInstruction
+		why      string
+	}
+	var cedges []cedge
+	for _, fn := range fns {
+		if !inCycle[fn] {
+			continue
+		}
+		for _, ci := range callsIn(fn, func(ssa.CallInstruction) bool { return true }) {
+			for _, cal := range p.callees(ci) {
+				if inCycle[cal] && sameSCC(p, scope, fn, cal) {
+					why := recursionGuard(fn, ci)
+					if why == "" {
+						why = activeListGuard(p, fn, ci)
+					}
+					cedges = append(cedges, cedge{fn, cal, ci, why})
+				}
+			}
+		}
+	}
+	onUnguardedCycle := func(e cedge) bool {
+		// is e.from reachable from e.to using unguarded edges only?
+		seen := map[*ssa.Function]bool{}
+		stack := []*ssa.Function{e.to}
+		for len(stack) > 0 {
+			f := stack[len(stack)-1]
+			stack = stack[:len(stack)-1]
+			if f == e.from {
+				return true
+			}
+			if seen[f] {
+				continue
+			}
+			seen[f] = true
+			for _, e2 := range cedges {
+				if e2.from == f && e2.why == "" {
+					stack = append(stack, e2.to)
+				}
+			}
+		}
+		return false
+	}
+	guardOf := map[ssa.CallInstruction]string{}
+	for _, e := range cedges {
+		switch {
+		case e.why != "":
+			guardOf[e.ci] = e.why
+		case !onUnguardedCycle(e):
+			if guardOf[e.ci] == "" {
+				guardOf[e.ci] = "every cycle through this call passes a guarded call elsewhere in the cycle"
+			}
+		default:
+			guardOf[e.ci] = ""
+		}
+	}
 	for _, fn := range fns {
 		if !inCycle[fn] {
 			continue
@@ -50,7 +109,7 @@ func checkC19(p *Program, r *Result) {
 			}
 			return false
 		}) {
-			why := recursionGuard(fn, ci)
+			why := guardOf[ci]
 			construct := "recursive call to " + calleeLabel(p, ci)
 			if why == "" {
 				extra := ""
@@ -98,7 +157,7 @@ func checkC19(p *Program, r *Result) {
 	if nScan == 0 {
 		r.held("C19.s", "ros1msg", "no bufio.Scanner", "", "the parser splits in memory (strings.Split); no token-size limit applies")
 	}
-	r.rule("C19.l", "per-field state does not survive from one field line to the next", 4)
+	r.rule("C19.l", "per-field state does not survive from one field line to the next", 1)
 	checkPerFieldState(p, r, fns)
 	// ---- C19.k: type names are looked up exactly: a literal prefix is removed with TrimPrefix/CutPrefix, never with
 	// a cutset function (which removes characters, eating the first letters of the name).
@@ -408,4 +467,83 @@ func overlap(a, b []*ssa.Call) bool {
 		}
 	}
 	return false
+}
+
+// activeListGuard: the recursion is guarded by a list of the names being expanded, kept in a field: before the call the
+// key is searched in the list by a helper (a hit returns an error), then appended to it. The key searched must be the key
+// appended.
+func activeListGuard(p *Program, fn *ssa.Function, ci ssa.CallInstruction) string {
+	for _, in := range instrsOf(fn) {
+		st, ok := in.(*ssa.Store)
+		if !ok || !instrDominates(st, ci) {
+			continue
+		}
+		tn, fld, _, ok := fieldRef(st.Addr)
+		if !ok {
+			continue
+		}
+		app, ok := st.Val.(*ssa.Call)
+		if !ok {
+			continue
+		}
+		if b, isB := app.Call.Value.(*ssa.Builtin); !isB || b.Name() != "append" || len(app.Call.Args) != 2 || !loadOfField(app.Call.Args[0], tn, fld) {
+			continue
+		}
+		// the appended key: append(list, []T{k}...) - find the single element store of the varargs array
+		var key ssa.Value
+		if sl, ok := app.Call.Args[1].(*ssa.Slice); ok {
+			if al, ok := sl.X.(*ssa.Alloc); ok {
+				for _, ref := range *al.Referrers() {
+					if ia, ok := ref.(*ssa.IndexAddr); ok {
+						for _, r2 := range *ia.Referrers() {
+							if s2, ok := r2.(*ssa.Store); ok && s2.Addr == ssa.Value(ia) {
+								key = s2.Val
+							}
+						}
+					}
+				}
+			}
+		}
+		if key == nil {
+			continue
+		}
+		// a membership test on the same key, through a helper that walks the same field, dominating the append
+		for _, c2 := range callsIn(fn, func(c2 ssa.CallInstruction) bool { return instrDominates(c2, st) }) {
+			h := c2.Common().StaticCallee()
+			call, isCall := c2.(*ssa.Call)
+			if h == nil || !isCall || h.Blocks == nil || !p.isRepoFunc(h) {
+				continue
+			}
+			if b, ok := h.Signature.Results().At(0).Type().Underlying().(*types.Basic); h.Signature.Results().Len() != 1 || !ok || b.Kind() != types.Bool {
+				continue
+			}
+			hasKey := false
+			for _, a := range c2.Common().Args {
+				if a == key {
+					hasKey = true
+				}
+			}
+			if !hasKey {
+				keyMismatch = "the list of names being expanded is searched with a different value than the one appended to it"
+				continue
+			}
+			walksField, compares := false, false
+			for _, hin := range instrsOf(h) {
+				if u, ok := hin.(*ssa.UnOp); ok && loadOfField(u, tn, fld) {
+					walksField = true
+				}
+				if b, ok := hin.(*ssa.BinOp); ok && b.Op == token.EQL {
+					for _, prm := range h.Params {
+						if b.X == ssa.Value(prm) || b.Y == ssa.Value(prm) {
+							compares = true
+						}
+					}
+				}
+			}
+			if walksField && compares && guardReturns(fn, call, st) {
+				return "active-list guard: " + tn + "." + fld + " is searched for the key (a hit returns) and the key is appended before the recursive call"
+			}
+		}
+	}
+	return ""
 }
